@@ -40,9 +40,12 @@ var (
 	SigLzSel6 = ref.FunSig{Name: "lz_sel6", Params: []*m.Type{m.Num, A_, A_, A_, A_, A_}, Ret: A_, Impl: "lz_sel6", Lazy: true}
 	SigLzOne  = ref.FunSig{Name: "lz_one", Params: []*m.Type{A_}, Ret: A_, Impl: "lz_one", Lazy: true}
 	SigLzNone = ref.FunSig{Name: "lz_none", Params: []*m.Type{A_, m.Num}, Ret: m.Num, Impl: "lz_none", Lazy: true}
-	SigH4     = ref.FunSig{Name: "h4", Params: []*m.Type{m.Num, A_, m.Num, A_}, Ret: A_, Impl: "h4"}
+	// lz_try :: forall a. a -> a -> a   lazy; yields its first operand, or - when evaluating that
+	// fails - its second (a host function that recovers from the failure of a deferred operand)
+	SigLzTry = ref.FunSig{Name: "lz_try", Params: []*m.Type{A_, A_}, Ret: A_, Impl: "lz_try", Lazy: true}
+	SigH4    = ref.FunSig{Name: "h4", Params: []*m.Type{m.Num, A_, m.Num, A_}, Ret: A_, Impl: "h4"}
 
-	StdHarness = []ref.FunSig{SigTr, SigBoom, SigHsub, SigHpair, SigLzIf, SigLzAnd, SigLzPick, SigLzSel4, SigLzSel6, SigLzOne, SigLzNone, SigH4}
+	StdHarness = []ref.FunSig{SigTr, SigBoom, SigHsub, SigHpair, SigLzIf, SigLzAnd, SigLzPick, SigLzSel4, SigLzSel6, SigLzOne, SigLzNone, SigH4, SigLzTry}
 )
 
 // IsHarnessName: the name of a harness-registered function.
@@ -173,6 +176,24 @@ func MakeHarnessFun(f ref.FunSig, tr *Tracer) *val.Val {
 			tr.Add(base)
 			return force(args[1+selIndex(force(args[0]).Num().V, n)])
 		}
+	case "lz_try":
+		impl = func(args ...*val.Val) *val.Val {
+			tr.Add("lz_try")
+			var v *val.Val
+			failed := func() (failed bool) {
+				defer func() {
+					if r := recover(); r != nil {
+						failed = true
+					}
+				}()
+				v = force(args[0])
+				return false
+			}()
+			if failed {
+				return force(args[1])
+			}
+			return v
+		}
 	case "lz_last":
 		impl = func(args ...*val.Val) *val.Val {
 			tr.Add("lz_last")
@@ -301,6 +322,13 @@ func RefHarness(sigs []ref.FunSig) map[string]ref.HarnessFun {
 			return a[1+selIndex(float64(k.N), len(a)-1)]()
 		}}
 	}
+	h["lz_try"] = ref.HarnessFun{Lazy: func(ev *ref.Evaluator, ret *m.Type, a []ref.Thunk) (*m.Val, *ref.Failure) {
+		ev.Trace = append(ev.Trace, "lz_try")
+		if v, f := a[0](); f == nil {
+			return v, nil
+		}
+		return a[1]()
+	}}
 	h["lz_last"] = ref.HarnessFun{Lazy: func(ev *ref.Evaluator, ret *m.Type, a []ref.Thunk) (*m.Val, *ref.Failure) {
 		ev.Trace = append(ev.Trace, "lz_last")
 		return a[len(a)-1]()
